@@ -33,7 +33,7 @@ def schedules(tier, seed):
     return s
 
 
-def run_prog(build, sc, prog, sched, label, heap=None, aslr=False, extra_env=None, timeout=600):
+def run_prog(build, sc, prog, sched, label, heap=None, aslr=False, extra_env=None, timeout=1800):
     t = sc.file("gc_%s.ndjson" % label)
     if os.path.exists(t):
         os.remove(t)
@@ -232,7 +232,13 @@ def run():
             if per[bad["prog"]] <= 3:
                 todo.append((bad, ev))
         locs = vlib.parallel(lambda be: localise(build, sc, refs[be[0]["prog"]]["out"], os.path.join(PROGS, be[0]["prog"]), be[0]["sched"], be[0]["heap"], "loc_" + be[0]["label"]), todo)
+        unrepeatable = 0
         for (bad, ev), (key, details) in zip(todo, locs):
+            if key == "not-reproducible":
+                # the same program, schedule and address-space layout did not fail again (typically: a run that hit its time limit
+                # on a loaded machine): a rejection is reported only if a re-run repeats it
+                unrepeatable += 1
+                continue
             if key in seen:
                 continue
             seen.add(key)
@@ -240,6 +246,9 @@ def run():
             chk.report(key, "run %s under schedule '%s' rejected by HeapSummary (output/exit differs from the reference run, crash, or heap anomaly)" % (bad["prog"], bad["sched"]),
                        "sweep_%s.json" % re.sub(r"[^A-Za-z0-9_]+", "_", key), details)
         chk.cov["rejected_runs"] = len(rejected)
+        chk.cov["rejections_not_repeated"] = unrepeatable
+        if unrepeatable > 3 and not chk.violations:
+            raise Broken("%d rejected runs did not fail again when repeated: the machine is too loaded (time limits) or the programs are not deterministic" % unrepeatable)
         chk.cov["evaluations"] = len(jobs) + a
         chk.cov["distinct_nontrivial"] = accepted + a
         chk.cov["rule"] = ("a case = (program, collection schedule, heap size) or one TLC-generated micro-heap behaviour; non-trivial = at least one "
